@@ -10,6 +10,7 @@ mod model;
 mod props;
 mod regex_mini;
 mod val;
+mod vprint;
 
 use engine::{CaseResult, Tier};
 
